@@ -169,3 +169,29 @@ Definition run_op (op : Z) (st : settings) (w h : Q) (input : list Z) : list Z :
           | 16 => op_frags true input
           | _ => op_behav input
           end).
+
+(** ** the command-line tool: a first-order description of a case and the printed outcome *)
+Require Import SB.Model.Cli.
+Record cli_case := CliCase {
+  cc_files : list (list Z * read_result); cc_stdin : read_result; cc_nowrite : list (list Z);
+  cc_usize : list (list Z * Z); cc_f32 : list (list Z * Q); cc_opts : options }.
+Fixpoint assoc_l {B} (k : list Z) (l : list (list Z * B)) : option B :=
+  match l with [] => None | (k', v) :: t => if zs_eqb k k' then Some v else assoc_l k t end.
+Definition env_of_case (c : cli_case) : env :=
+  Env (fun p => match assoc_l p (cc_files c) with Some r => r | None => ReadError end)
+      (cc_stdin c)
+      (fun p => negb (existsb (zs_eqb p) (cc_nowrite c)))
+      (fun s => assoc_l s (cc_usize c))
+      (fun s => assoc_l s (cc_f32 c)).
+Definition show_writes (ws : list (list Z * list Z)) : list (list Z * list Z) := ws.
+(** the outcome as (code or -1 for a crash, diagnostic flag, stdout, writes) *)
+Definition op_cli (c : cli_case) : Z * bool * list Z * list (list Z * list Z) :=
+  match run (env_of_case c) (cc_opts c) with
+  | Exit code out diag ws => (code, diag, out, ws)
+  | Crash => (-1, true, [], [])
+  end.
+Definition op_build (c : cli_case) (dir_exists : bool) (outdir ext : list Z) (l : list entry) : Z * bool * list Z * list (list Z * list Z) :=
+  match build (env_of_case c) dir_exists (fun name => outdir ++ [47] ++ name ++ zs ".svg") ext l with
+  | Exit code out diag ws => (code, diag, out, ws)
+  | Crash => (-1, true, [], [])
+  end.
